@@ -383,6 +383,10 @@ do_job(char *line)
 		char *s = tok[3];
 		int nocc = nt >= 5 ? atoi(tok[4]) : 12;
 
+		if (nt >= 6 && atoi(tok[5]) > 0) {
+			alarm(atoi(tok[5]));
+		}
+
 		while (*s && nsz < 256) {
 			sz[nsz++] = strtol(s, &s, 10);
 			if (*s == ',') {
@@ -393,6 +397,10 @@ do_job(char *line)
 	} else if (!strcmp(tok[0], "strm") && nt >= 2) {
 		job_strm(cur_data, cur_dz, tok[1]);
 	} else if (!strcmp(tok[0], "rt") && nt >= 3) {
+		/* rt K N [SECONDS]: own watchdog */
+		if (nt >= 4 && atoi(tok[3]) > 0) {
+			alarm(atoi(tok[3]));
+		}
 		job_rt(cur_data, cur_dz, atoi(tok[1]), atoi(tok[2]));
 	}
 }
